@@ -632,10 +632,89 @@ def check(run, terrs):
     failures.extend(known_canary(run, binary))
     run.trusted = TRUSTED
     run.assumptions = ASSUMPTIONS
+    # Source tie (Gen/GenObj.v = obj/mod.rs + obj/oop.rs translated statement by statement; C02/ProofsSource.v
+    # proves translated = hand model).  A TranslateError of GenObj is already the failed obligation
+    # translator.GenObj (Gen/GenObj.v is then stale and says nothing about this tree); a proof that stops
+    # compiling fails every C02.<theorem> obligation.  Either way the code no longer is what the theorems
+    # speak about: look for a concrete failing input, densely around what the translated functions compute.
+    tie_broken = bool([1 for n, _ in terrs if n == "GenObj"]) or (
+        not proofs_ok and any(x in (detail or "") for x in SOURCE_FILES))
+    run.coverage["source_tie"] = {"translated": SOURCE_FUNCTIONS, "intact": not tie_broken}
+
+    def tie_search():
+        if tie_broken:
+            run.log("search: the C02 source tie broke: dense +: / objectRemoveKey / visibility chains")
+            f, _ = correspond(run, binary, tie_cases(run), quiet=True)
+            if f:
+                return f
+        return search(run, binary) if run.tier == "quick" or tie_broken else []
+
     return core.conclude(
         run, proofs_ok, detail, failures, model_diffs,
-        search=(lambda: search(run, binary)) if run.tier == "quick" else None,
+        search=tie_search if (run.tier == "quick" or tie_broken) else None,
         level="proof", rule=RULE)
+
+
+SOURCE_FILES = ("GenObj.v", "ProofsSource.v", "PropertiesSource.v", "PinsSource.v", "ModelSource.v")
+SOURCE_FUNCTIONS = ["obj/mod.rs ObjValue::get_idx_uncached", "obj/mod.rs ObjValue::has_field_include_hidden_idx",
+                    "obj/mod.rs ObjValue::field_visibility_idx", "obj/mod.rs ObjValue::fields_visibility",
+                    "obj/mod.rs ObjValue::extend_from", "obj/oop.rs ObjValueBuilder::with_fields_omitted"]
+
+
+def tie_cases(run):
+    """Dense chain programs over ONE name around what the translated walks decide: every chain of 1-3 steps
+    (and a seeded sample of 4- and 5-step chains) over {a:, a+:, a::, a:::, a+::, a+:::, objectRemoveKey a,
+    a layer without a}, each also under a top layer that reads `super.a` and `"a" in super` (start index below
+    the top), and removals nested inside `+` operands (the skip counter's `max`)."""
+    rng = run.rng.fork("tie")
+    A, Bn, C = 0, 1, 2
+    kinds = [(False, "n"), (True, "n"), (False, "h"), (False, "u"), (True, "h"), (True, "u")]
+    steps_all = kinds + ["rm", "blank"]
+
+    def one(i, s):
+        if s == "blank":
+            return ("obj", [F(Bn, ("tag", 10 + i))], [], [])
+        return ("obj", [F(A, ("tag", i + 1), s[0], s[1])], [], [])
+
+    def chain(steps, cur=None):
+        for i, s in enumerate(steps):
+            if s == "rm":
+                if cur is None:
+                    return None
+                cur = ("remove", cur, A)
+            else:
+                o = one(i, s)
+                cur = o if cur is None else (("add", cur, o) if i % 2 else ("ext", cur, o[1], o[2], o[3]))
+        return cur
+
+    top = ("obj", [F(Bn, ("super", A)), F(C, ("insuper", A))], [], [])
+    out = []
+
+    def emit(c):
+        if c is not None:
+            out.append(c)
+            out.append(("add", c, top))
+
+    import itertools
+    for n in (1, 2, 3):
+        for steps in itertools.product(steps_all, repeat=n):
+            emit(chain(list(steps)))
+    for n, cnt in ((4, 250), (5, 150)):
+        for _ in range(cnt):
+            emit(chain([rng.choice(steps_all) for _ in range(n)]))
+    # removal nests: L + remove(M) [+ R], remove(L + remove(M) + R)
+    for _ in range(250):
+        L = chain([rng.choice(kinds + ["blank"]) for _ in range(rng.randint(1, 2))])
+        M = chain([rng.choice(steps_all[:7]) for _ in range(rng.randint(1, 3))] )
+        if M is None:
+            continue
+        x = ("add", L, ("remove", M, A))
+        R = [rng.choice(kinds) for _ in range(rng.randint(0, 2))]
+        for i, s in enumerate(R):
+            x = ("add", x, one(20 + i, s))
+        emit(x)
+        emit(("remove", x, A))
+    return out
 
 
 CANARY = "{assert self.b == 1, b: self.b}"
@@ -828,13 +907,18 @@ RULE = ("chain programs over names {a,b,c}: exhaustive 1- and 2-step chains over
         "at least two layers")
 TRUSTED = ["Coq 8.16.1 kernel incl. vm_compute (no native_compute)",
            "no axioms (all C02 theorems closed under the global context)",
+           "source tie: translator/gens/objwalk.py (Rust-subset parser, continuation-style emission, fixed Gallina reading of "
+           "Saturating<usize> / Vec / Option / Iterator primitives); fails closed on anything it does not recognise",
            "correspondence: jrharness eval (out=minify), vlib generators/renderers (Jsonnet text and Gallina term "
            "from one python tree), Coq term printer/parser",
            "modelled not verified: member-body evaluation is abstract in the theorems (any ev/add); the value "
            "cache and assertions_ran flag (assumed transparent, C03/C16), RUNNING_ASSERTIONS collapsed to one "
            "flag, GC sharing, FxHashMap iteration order (names per layer distinct), StandaloneSuperCore "
            "(bare `super`, a documented jrsonnet extension) is not modelled"]
-ASSUMPTIONS = ["impl-model transliterates obj/mod.rs + obj/oop.rs loops; tie = differential run on every check",
+ASSUMPTIONS = ["impl-model loops (get_idx_uncached, has_field_include_hidden_idx, field_visibility_idx, fields_visibility, "
+               "extend_from, with_fields_omitted) are proved equal to their statement-by-statement translation from the "
+               "working tree (Gen/GenObj.v, C02_model_is_translated_source_*); the per-core methods of OopObject / "
+               "OmitFieldsCore stay hand-transliterated, tied by the differential run on every check",
                "layer lists are well formed (distinct names per layer, removal ranges laminar, 2*len+2 < 2^64): "
                "proved to be preserved by +, extension and objectRemoveKey (C02_constructors_wf)",
                "spec evaluates a `+:` body before super.f (only affects which of several errors is reported)"]
